@@ -24,7 +24,6 @@ import (
 
 type vfTurnSend struct {
 	Actor   int  `json:"actor"`
-	Sender  int  `json:"sender"`            // sender identity (shared between producer threads: fair mailbox sub-queues)
 	Control bool `json:"control,omitempty"` // a control message (system mailbox path)
 	Yields  int  `json:"yields,omitempty"`  // scheduling points inside the handler
 }
@@ -35,6 +34,10 @@ type vfTurnCase struct {
 	Workers    int            `json:"workers"`
 	Throughput int            `json:"throughput"`
 	Producers  [][]vfTurnSend `json:"producers"`
+	// Senders[i] is the sender identity producer thread i uses for all of its sends (one
+	// goroutine = one sender, as in real use); two threads may share an identity, which is
+	// what puts two goroutines on one sub-queue of the fair mailbox.
+	Senders []int `json:"senders"`
 }
 
 var vfTurnAllKinds = []string{"unbounded", "fair", "segmented", "nbbounded", "bounded", "upriority", "ustable", "bpriority", "bstable"}
@@ -55,12 +58,12 @@ func vfTurnGen(kinds []string) func(t *rapid.T) vfTurnCase {
 			for i := 0; i < n; i++ {
 				ss = append(ss, vfTurnSend{
 					Actor:   rapid.IntRange(0, c.Actors-1).Draw(t, "actor"),
-					Sender:  rapid.IntRange(0, 1).Draw(t, "sender"),
 					Control: rapid.IntRange(0, 9).Draw(t, "control") == 0,
 					Yields:  rapid.SampledFrom([]int{0, 0, 1, 2}).Draw(t, "yields"),
 				})
 			}
 			c.Producers = append(c.Producers, ss)
+			c.Senders = append(c.Senders, rapid.IntRange(0, 1).Draw(t, "senderOfProducer"))
 		}
 		return c
 	}
@@ -193,13 +196,13 @@ func vfTurnExec(x *vfkit.X, c vfTurnCase) *vfTurnResult {
 			for _, snd := range sends {
 				rc := getContext()
 				if snd.Control {
-					rc.build(context.Background(), senders[snd.Sender], pids[snd.Actor], &PausePassivation{}, true)
+					rc.build(context.Background(), senders[c.Senders[pi]], pids[snd.Actor], &PausePassivation{}, true)
 				} else {
 					m := &vfTurnMsg{ID: nextID, Actor: snd.Actor, Producer: pi, Seq: seq, Yields: snd.Yields}
 					nextID++
 					seq++
 					res.Sent = append(res.Sent, *m)
-					rc.build(context.Background(), senders[snd.Sender], pids[snd.Actor], m, true)
+					rc.build(context.Background(), senders[c.Senders[pi]], pids[snd.Actor], m, true)
 				}
 				pids[snd.Actor].doReceive(rc)
 				vfsched.OpEnd()
